@@ -800,3 +800,47 @@ def rebuilt_from_edges_rule(rc, prefixes, exempt=(), only=None):
                 rc.fail(f, c, f"{f.qual} rebuilds a graph from `{src}.edges()` only: nodes of `{src}` without any edge (isolated variables / cliques) are lost — and with them their CPDs or factors",
                         construct=f"{f.qual} graph from edges only: {call_name(c)}({src}.edges())")
     rc.ob(f"{n} graph construction(s) from an edge list under {list(prefixes)}")
+
+
+# ------------------------------------------------------------------------------------------------
+def fresh_helper_nodes(rc, funcs):
+    """Functions that encode virtual evidence add one helper child per evidence item.  The helper's name must be NEW in the working model on every iteration:
+    the statement(s) between the name's definition and `model.add_edge(var, name)` contain a test `name in <model>…` (if/while) that re-names on collision.  A
+    name that is a function of the variable alone is shared by two evidences on the same variable (the second CPD replaces the first) and may coincide with
+    a node of the user's model.  The name is built with str(var) / an f-string, so that non-string node names do not raise."""
+    from .. import tmatch as tm
+    n_sites = 0
+    for f in funcs:
+        for loop in [n for n in walk_no_nested(f.node) if isinstance(n, ast.For)]:
+            body = loop.body
+            for i, st in enumerate(body):
+                c = st.value if isinstance(st, ast.Expr) else None
+                b = tm.is_(c, "_M.add_edge(_V, _NV)") if c is not None else None
+                if not b:
+                    continue
+                defs = [j for j in range(i) if isinstance(body[j], ast.Assign) and norm(body[j].targets[0]) == b["_NV"]]
+                if not defs:
+                    continue
+                n_sites += 1
+                d = body[defs[0]]
+                guarded = False
+                for st2 in body[defs[0] + 1:i]:
+                    if isinstance(st2, (ast.If, ast.While)):
+                        for cmp_ in ast.walk(st2.test):
+                            if isinstance(cmp_, ast.Compare) and isinstance(cmp_.ops[0], ast.In) and norm(cmp_.left) == b["_NV"] and b["_M"] in {x.id for x in ast.walk(cmp_.comparators[0]) if isinstance(x, ast.Name)}:
+                                rebinds = any(isinstance(x, (ast.Assign, ast.AugAssign)) and norm(x.targets[0] if isinstance(x, ast.Assign) else x.target) == b["_NV"] for x in ast.walk(st2))
+                                guarded = guarded or rebinds
+                        if any(isinstance(x, ast.Call) and call_name(x) == "has_node" and x.args and norm(x.args[0]) == b["_NV"] for x in ast.walk(st2.test)):
+                            guarded = True
+                rc.ob(f"{f.file}:{f.qual}: helper node `{b['_NV']} = {norm(d.value, 40)}` re-named while it is already a node of `{b['_M']}`: {guarded}")
+                if not guarded:
+                    rc.fail(f, d, f"{f.qual}: the helper node `{b['_NV']} = {norm(d.value, 40)}` depends on the variable only and is not checked against the nodes of `{b['_M']}`: two virtual "
+                            f"evidences on one variable share it (the second likelihood replaces the first), and a model node of that name is overwritten",
+                            construct=f"{f.qual} helper node not fresh")
+                bare = [x for x in ast.walk(d.value) if isinstance(x, ast.BinOp) and isinstance(x.op, ast.Add)
+                        and any(isinstance(y, ast.Constant) and isinstance(y.value, str) for y in (x.left, x.right)) and any(isinstance(y, ast.Name) for y in (x.left, x.right))]
+                if bare:
+                    rc.fail(f, d, f"{f.qual}: `{norm(d.value, 40)}` concatenates a node name with a string: any hashable is a node name, a non-string one raises TypeError",
+                            construct=f"{f.qual} helper node name needs str()")
+    if n_sites < len(funcs):
+        raise AnalysisError(f"virtual evidence: expected a helper-node site in each of {[f.qual for f in funcs]}, found {n_sites}")
